@@ -12,6 +12,7 @@ from sim.seams import UUID_REGIMES
 
 COMMON = ["id", "u", "k", "kn", "x", "y", "g", "n", "s"]
 ALIAS_NAMES = ["Z1", "Z2", "B", "A", "t"]
+INTERRUPTIBLE = ("mutate", "summarize", "filter", "arrange", "group_by", "select", "rename", "join", "apply_pipe", "alias", "union", "slice_head")
 
 
 class Generator:
@@ -22,6 +23,9 @@ class Generator:
         self.w = dict(self.p["weights"])
         self.n_fresh = 0
         self.cur_session = 0
+        self.interrupt_step = None
+        if mach.cfg.get("population") == "interrupt":
+            self.interrupt_step = self.rng.randrange(3, max(4, mach.cfg["max_steps"] - 2))
         if mach.cfg.get("population", "clean") == "clean":
             for k in ("arm_engine", "gc"):
                 self.w[k] = 0
@@ -53,6 +57,9 @@ class Generator:
             st = getattr(self, "g_" + op)()
             if st is not None:
                 st["s"] = self.cur_session
+                if self.interrupt_step is not None and i >= self.interrupt_step and st["op"] in INTERRUPTIBLE:
+                    st["interrupt_at"] = self.rng.randrange(1, 700)
+                    self.interrupt_step = None
                 return st
         return None
 
@@ -582,7 +589,7 @@ class Generator:
         used = set()
         for _ in range(rng.choice([1, 1, 2])):
             rec = self.g_exprrec(pt, self.p.get("summarize_kinds", {"agg": 1}))
-            if rec is None:
+            if rec is None or X.expr_ftype(rec, self.m.expr_recs) != "agg":
                 continue
             if rec["e"] == "agg":
                 rec.pop("pb", None)
